@@ -55,8 +55,15 @@ fn get_set_cached<T: Clone>(
     key: &std::path::Path,
     value_func: impl FnOnce() -> T,
 ) -> T {
+    if let Some(cached) = cache.lock().expect("cache is poisoned").get(key) {
+        return cached.clone();
+    }
+
+    // Compute the value without holding the lock: `value_func` panics on unreadable or invalid
+    // files, and that must not poison the cache for every later call.
+    let value = value_func();
     let mut lock = cache.lock().expect("cache is poisoned");
-    lock.entry(key.into()).or_insert_with(value_func).clone()
+    lock.entry(key.into()).or_insert(value).clone()
 }
 
 fn query_document(query_string: &str) -> Result<QueryDocument, BoxError> {
